@@ -39,6 +39,9 @@ RULE = ('random API-built designs (gen_designs: all primitive ops, widths 1..130
         'entry point (step, step_multiple with / without expected outputs / with nsteps, CompiledSimulation.run) '
         'on the history with an out-of-range value injected at a step k >= 1, followed by two legal steps, '
         'compared with step() once per cycle; step_multiple scenarios with 0-4 expected wires; '
+        'I/O-shape designs (1-4 Inputs, 1-4 Outputs, widths 1..130, all traced; 64-bit word counts of the input '
+        'and output records differ both ways): a legal multi-step table through CompiledSimulation.run (one call, '
+        'two calls) / step_multiple / step and FastSimulation vs Simulation: trace, inspect, print_trace, print_vcd; '
         'assertion designs: 1-2 rtl_asserts going low at chosen cycles x 4 tracer configurations (default, all, '
         'explicit list without / with the assertion wires) x exception objects of 9 classes incl. PyrtlError, '
         'a PyrtlError subclass, PyrtlInternalError, IndexError. A case is '
@@ -595,9 +598,16 @@ def _drive(c, cls, how, hist, tail, exp_name):
     except Exception as e:
         err = type(e).__name__
     t1 = trace_dict(tracer)
-    for ins in tail:
-        sim.step(dict(ins))
-    bad = [nm for nm in tracer.trace if sim.inspect(nm) != tracer.trace[nm][-1]]
+    bad = []
+    try:
+        for ins in tail:
+            sim.step(dict(ins))
+        for nm in tracer.trace:
+            lst_ = tracer.trace[nm]
+            if lst_ and sim.inspect(nm) != lst_[-1]:
+                bad.append(nm)
+    except Exception as e:      # the object is no longer usable after the entry point
+        bad.append('raised %r' % e)
     return err, t1, trace_dict(tracer), bad
 
 
@@ -633,7 +643,9 @@ def channel_entry_points(ctx, c, key, cls, trA):
         hows.append('run')
     for how in hows:
         err, t1, t2, bad = _drive(c, cls, how, hist, tail, exp_name)
-        n1 = len(next(iter(t1.values())))
+        n1 = min(len(v) for v in t1.values())
+        if len({len(v) for v in t1.values()}) > 1:
+            bad = bad + ['traced lists have different lengths %s' % sorted({len(v) for v in t1.values()})]
         ctx.count('entry_points', '%s:%s:%s:%s' % (key, how, err, 'k-cycles-traced' if n1 == k else 'fewer'))
         ctx.case(('entry', c.i, key, how, k, bad_v), nontrivial=True,
                  sample=dict(rep, entry_point=how) if (c.i == 0 and key == 'compiled') else None)
@@ -659,9 +671,11 @@ def channel_entry_points(ctx, c, key, cls, trA):
     for how in [h for h in hows if h in ('step_multiple', 'run')]:
         err, t1, t2, bad = _drive(c, cls, how, legal, [], exp_name)
         if err is not None or t1 != {nm: trA[nm] for nm in t1} or bad:
-            viol(ctx, 'entry-point:%s:%s:legal' % (key, how),
-                 '%s.%s on a legal history differs from step() once per cycle (error %s)' % (cls, how, err),
-                 dict(rep, entry_point=how, history=legal))
+            viol(ctx, 'entry-point:%s:%s:legal%s' % (key, how, ':raised:' + err if err else ''),
+                 '%s.%s on a legal %d-step history differs from step() once per cycle (error %s; wires that '
+                 'differ: %s; %s)' % (cls, how, len(legal), err, [nm for nm in t1 if t1[nm] != trA[nm]][:6], bad),
+                 dict(rep, entry_point=how, history=legal, trace_after=t1,
+                      trace_one_at_a_time={nm: trA[nm] for nm in t1}))
 
 
 # ------------------------------------------------------------------ channel C
@@ -1023,11 +1037,130 @@ def directed_prefix_names(ctx, exprs, meta):
                                    % (cls, bad, plain, e), {'names': [bad, plain], 'simulator': cls})
 
 
+# ------------------------------------------------------------------ channel G: I/O buffer shapes
+IO_WIDTHS = [1, 2, 3, 5, 8, 16, 31, 32, 33, 63, 64, 65, 96, 127, 128, 129, 130]
+
+
+def _fit(w, width):
+    return w[:width] if len(w) >= width else w.zero_extended(width)
+
+
+def _words(ws):
+    return sum((len(w) + 63) // 64 for w in ws)
+
+
+def channel_io_shapes(ctx, j):
+    """1-4 Inputs and 1-4 Outputs of widths 1..130 (so the numbers of 64-bit words per step of
+    CompiledSimulation's input and output records differ in both directions), ALL of them traced:
+    a legal multi-step table through every batch entry point of CompiledSimulation (run in one call,
+    run in two calls, step_multiple without expected outputs) against one step() per cycle and against
+    Simulation -- trace, inspect, print_trace and print_vcd text."""
+    rng = ctx.sub_rng('ioshape', j)
+    pyrtl.reset_working_block()
+    n_in, n_out = rng.randint(1, 4), rng.randint(1, 4)
+    big_in = rng.random() < 0.5           # bias one side towards wide wires
+    def W(wide):
+        return rng.choice(IO_WIDTHS[8:] if (wide and rng.random() < 0.6) else IO_WIDTHS[:9])
+    ins = [pyrtl.Input(W(big_in), 'i%d' % k) for k in range(n_in)]
+    reg = pyrtl.Register(rng.choice([3, 8, 40, 70]), 'acc')
+    reg.next <<= _fit(reg + _fit(ins[0], len(reg)), len(reg))
+    outs = []
+    for k in range(n_out):
+        ow = W(not big_in)
+        a, b = rng.choice(ins), rng.choice(ins + [reg])
+        kind = rng.choice(['wire', 'xor', 'concat', 'add'])
+        if kind == 'wire':
+            e = a
+        elif kind == 'xor':
+            e = _fit(a, ow) ^ _fit(b, ow)
+        elif kind == 'concat':
+            e = pyrtl.concat(b, a)
+        else:
+            e = _fit(a, ow) + _fit(b, ow)
+        o = pyrtl.Output(ow, 'o%d' % k)
+        o <<= _fit(e, ow)
+        outs.append(o)
+    block = pyrtl.working_block()
+    ncyc = rng.randint(2, 7)
+    table = [{w.name: gen_designs.boundary_value(rng, len(w)) for w in ins} for _ in range(ncyc)]
+    wi, wo = _words(ins), _words(outs)
+    ctx.count('io_words', 'inputs %s outputs' % ('<' if wi < wo else ('>' if wi > wo else '=')))
+    rep = {'seed': ctx.seed, 'io_design': j, 'inputs': {w.name: len(w) for w in ins},
+           'outputs': {w.name: len(w) for w in outs}, 'input_words': wi, 'output_words': wo, 'table': table}
+
+    def observe(cls, how):
+        tracer = pyrtl.SimulationTrace(wires_to_track=ins + outs, block=block)
+        sim = getattr(pyrtl, cls)(tracer=tracer, block=block)
+        if how == 'step':
+            for row in table:
+                sim.step(dict(row))
+        elif how == 'run':
+            sim.run([dict(row) for row in table])
+        elif how == 'run-in-two-calls':
+            cut = rng.randint(1, ncyc - 1)
+            sim.run([dict(row) for row in table[:cut]])
+            sim.run([dict(row) for row in table[cut:]])
+        else:
+            sim.step_multiple({w.name: [row[w.name] for row in table] for w in ins}, file=io.StringIO())
+        tr = trace_dict(tracer)
+        insp = {nm: sim.inspect(nm) for nm in tr}
+        f1, f2 = io.StringIO(), io.StringIO()
+        tracer.print_trace(f1, base=16)
+        tracer.print_vcd(f2)
+        return tr, insp, f1.getvalue(), f2.getvalue()
+
+    want = observe('Simulation', 'step')
+    # Simulation against the table itself: every Input trace is the column that was fed
+    if any(want[0][w.name] != [row[w.name] for row in table] for w in ins):
+        viol(ctx, 'io-shape:simulation:input-trace', 'Simulation: traced Inputs differ from the values fed', rep)
+    for cls, how in [('FastSimulation', 'step'), ('CompiledSimulation', 'step'), ('CompiledSimulation', 'run'),
+                     ('CompiledSimulation', 'run-in-two-calls'), ('CompiledSimulation', 'step_multiple')]:
+        key = {'FastSimulation': 'fast', 'CompiledSimulation': 'compiled'}[cls]
+        ctx.case(('ioshape', j, cls, how), nontrivial=True,
+                 sample=dict(rep, simulator=cls, entry_point=how) if j == 0 and how == 'run' else None)
+        try:
+            got = observe(cls, how)
+        except Exception as e:
+            viol(ctx, 'io-shape:%s:%s:raised:%s' % (key, how, type(e).__name__),
+                 '%s via %s on a legal %d-step table (%d input words, %d output words per step) raised %r'
+                 % (cls, how, ncyc, wi, wo, e), dict(rep, simulator=cls, entry_point=how))
+            continue
+        if got[0] != want[0]:
+            wrong = [nm for nm in want[0] if got[0].get(nm) != want[0][nm]]
+            kindw = 'inputs' if all(nm.startswith('i') for nm in wrong) else 'outputs'
+            viol(ctx, 'io-shape:%s:%s:trace:%s' % (key, how, kindw),
+                 '%s via %s: trace of %s differs from Simulation stepped once per cycle (%d input words, %d output '
+                 'words per step)' % (cls, how, wrong, wi, wo),
+                 dict(rep, simulator=cls, entry_point=how, trace=got[0], expected_trace=want[0]))
+        elif got[1] != want[1]:
+            viol(ctx, 'io-shape:%s:%s:inspect' % (key, how), '%s via %s: inspect differs from Simulation'
+                 % (cls, how), dict(rep, simulator=cls, entry_point=how, inspect=got[1], expected=want[1]))
+        elif got[2] != want[2] or got[3] != want[3]:
+            viol(ctx, 'io-shape:%s:%s:text' % (key, how), '%s via %s: print_trace / print_vcd text differs from '
+                 'Simulation although the traces are equal' % (cls, how), dict(rep, simulator=cls, entry_point=how))
+
+
+def guarded(ctx, what, rep, exprs, meta, fn, *args):
+    """run one channel; a crash is reported (with the case that provoked it) and the other streams go on"""
+    ne, nm_ = len(exprs), len(meta)
+    try:
+        return fn(*args)
+    except Exception as e:
+        del exprs[ne:]
+        del meta[nm_:]
+        import traceback
+        viol(ctx, 'channel-crashed:%s:%s' % (what, type(e).__name__),
+             'the %s observations could not be completed: %r' % (what, e),
+             dict(rep, traceback=traceback.format_exc()[-1500:]))
+        return None
+
+
 # ------------------------------------------------------------------ main
 def run(ctx):
     _SIG_COUNT.clear()
     ndesigns = 36 if ctx.tier == 'quick' else 450
     nassert = 30 if ctx.tier == 'quick' else 300
+    nio = 20 if ctx.tier == 'quick' else 300
     # ---- T14 gate
     probs = genfrag_C15.step_multiple_identity(REPO)
     for p in probs:
@@ -1069,19 +1202,29 @@ def run(ctx):
             for nm in trA:
                 w = tracer._wires[nm].bitwidth
                 ctx.count('traced_widths', w if w <= 8 else ('9-64' if w <= 64 else '65+'))
+            grep_ = {'seed': ctx.seed, 'design': c.i, 'simulator': cls, 'inputs': c.inputs,
+                     'wires_to_track': c.partial if c.track in ('partial', 'repeats') else c.track}
             if ref is not None:
                 # expected_outputs may name wires the tracer does not track (inspect still works), except
                 # under CompiledSimulation, whose inspect reads the trace
                 pool = list(trA) if key == 'compiled' else list(ref)
-                channel_step_multiple(ctx, c, key, cls, guard, ref, exprs, meta, pool)
+                guarded(ctx, 'step_multiple:' + key, grep_, exprs, meta,
+                        channel_step_multiple, ctx, c, key, cls, guard, ref, exprs, meta, pool)
             else:
-                channel_step_multiple(ctx, c, key, cls, guard, trA, exprs, meta)
-            channel_text(ctx, c, key, cls, tracer, si == coq_sim, exprs, meta)
-            channel_illegal(ctx, c, key, cls, sim, tracer, guard_pairs)
-            channel_entry_points(ctx, c, key, cls, ref if ref is not None else trA)
+                guarded(ctx, 'step_multiple:' + key, grep_, exprs, meta,
+                        channel_step_multiple, ctx, c, key, cls, guard, trA, exprs, meta)
+            guarded(ctx, 'text:' + key, grep_, exprs, meta,
+                    channel_text, ctx, c, key, cls, tracer, si == coq_sim, exprs, meta)
+            guarded(ctx, 'illegal-inputs:' + key, grep_, exprs, meta,
+                    channel_illegal, ctx, c, key, cls, sim, tracer, guard_pairs)
+            guarded(ctx, 'entry-points:' + key, grep_, exprs, meta,
+                    channel_entry_points, ctx, c, key, cls, ref if ref is not None else trA)
     for j in range(nassert):
-        channel_assert(ctx, j, exprs, meta)
-    directed_prefix_names(ctx, exprs, meta)
+        guarded(ctx, 'rtl_assert', {'seed': ctx.seed, 'assert_design': j}, exprs, meta,
+                channel_assert, ctx, j, exprs, meta)
+    for j in range(nio):
+        guarded(ctx, 'io-shape', {'seed': ctx.seed, 'io_design': j}, exprs, meta, channel_io_shapes, ctx, j)
+    guarded(ctx, 'directed-names', {'seed': ctx.seed}, exprs, meta, directed_prefix_names, ctx, exprs, meta)
 
     # translated guards vs behaviour vs specification on every tried (value, width)
     gp_index = {}
